@@ -93,7 +93,10 @@ def fresh_container(it, t, callee, lensv):
 @model("alloc::vec::Vec::new", "bytes::bytes_mut::BytesMut::new", "bytes::bytes::Bytes::new", "alloc::string::String::new",
        "alloc::vec::Vec::with_capacity", "bytes::bytes_mut::BytesMut::with_capacity", "alloc::string::String::with_capacity")
 def m_new_container(it, S, t, callee, args):
-    return fresh_container(it, t, callee, U(0))
+    R = fresh_container(it, t, callee, U(0))
+    if "Vec" in norm_name(callee.get("pretty")):
+        return ("upd", R[1], R[2] + (((("items",),), ("model", "seq", ())),))
+    return R
 
 
 @model("alloc::vec::from_elem")
@@ -145,7 +148,11 @@ def minus(a, b):
 @model("alloc::vec::Vec::push")
 def m_push(it, S, t, callee, args):
     loc = it.target(args[0])
+    items = items_of(S, loc)
+    if items is None:
+        items = value_items(S.read(loc))
     set_len(it, S, loc, plus(get_len(it, S, loc), U(1)))
+    set_items(S, loc, None if items is None else items + (args[1],))
     return K("()", "zst")
 
 
@@ -167,6 +174,35 @@ def m_remove(it, S, t, callee, args):
     else:
         front_unknown(S, loc)
     return None_result(it, t, callee)
+
+
+def items_of(S, loc):
+    """the vector at loc as a tuple of items in order - element values and ("splice", value) for a whole sequence spliced in -
+    or None when its content is not known item by item"""
+    v = S.read((loc[0], loc[1] + (("items",),)))
+    if isinstance(v, tuple) and v[0] == "model" and v[1] == "seq":
+        return v[2]
+    return None
+
+
+def set_items(S, loc, items):
+    if items is None:
+        S.mem.pop((loc[0], loc[1] + (("items",),)), None)
+        S.write((loc[0], loc[1] + (("items",),)), ("model", "seq-unknown"))
+    else:
+        S.write((loc[0], loc[1] + (("items",),)), ("model", "seq", tuple(items)))
+
+
+def value_items(v):
+    """items of a vector value (as read from memory, sub-entries folded in)"""
+    if isinstance(v, tuple) and v[0] == "upd":
+        for p, sv in v[2]:
+            if p == (("items",),) and isinstance(sv, tuple) and sv[0] == "model" and sv[1] == "seq":
+                return sv[2]
+        return value_items(v[1])
+    if isinstance(v, tuple) and v[0] == "model" and v[1] == "vec!":
+        return tuple(v[2][3])
+    return None
 
 
 def front_of(S, loc):
@@ -252,8 +288,14 @@ def m_truncate(it, S, t, callee, args):
 def m_append(it, S, t, callee, args):
     a, b = it.target(args[0]), it.target(args[1])
     la, lb = get_len(it, S, a), get_len(it, S, b)
+    items = items_of(S, a)
+    if items is None:
+        items = value_items(S.read(a))
+    src = S.read(b)
     set_len(it, S, a, plus(la, lb))
     set_len(it, S, b, U(0))
+    set_items(S, a, None if items is None else items + (("splice", src),))
+    set_items(S, b, ())
     return K("()", "zst")
 
 
@@ -271,11 +313,17 @@ def m_extend_from_slice(it, S, t, callee, args):
 def m_extend(it, S, t, callee, args):
     a = it.target(args[0])
     la = get_len(it, S, a)
+    items = items_of(S, a)
+    if items is None:
+        items = value_items(S.read(a))
+    src = args[1]
     it.havoc_args(S, t, args, skip=(0,))
     new = ("call", it.site("len"), "len-after-extend")
     set_ty(new, "usize")
     S.write((a[0], a[1] + (("len",),)), new)
     S.add_le(la, new, 0)
+    # everything the source yields, in order, after what was there
+    set_items(S, a, None if items is None else items + (("splice", src),))
     return K("()", "zst")
 
 
